@@ -46,6 +46,8 @@ static std::string run(const std::string& f, const Integer& n, const Integer& d)
         if (f == "gmp.tdiv_q") { mpz_tdiv_q(a, N, D); o = zs(a); }
         else if (f == "gmp.tdiv_r") { mpz_tdiv_r(a, N, D); o = zs(a); }
         else if (f == "gmp.tdiv_qr") { mpz_tdiv_qr(a, b, N, D); o = zs(a) + " " + zs(b); }
+        else if (f == "gmp.fdiv_qr") { mpz_fdiv_qr(a, b, N, D); o = zs(a) + " " + zs(b); }
+        else if (f == "gmp.cdiv_qr") { mpz_cdiv_qr(a, b, N, D); o = zs(a) + " " + zs(b); }
         else if (f == "gmp.fdiv_q") { mpz_fdiv_q(a, N, D); o = zs(a); }
         else if (f == "gmp.fdiv_r") { mpz_fdiv_r(a, N, D); o = zs(a); }
         else if (f == "gmp.cdiv_q") { mpz_cdiv_q(a, N, D); o = zs(a); }
